@@ -50,6 +50,14 @@ class Mon(drivers.Monitor):
         a = self.cur if self.cur is not None else seq_of_snap(before)
         b = seq_of_snap(after)
         self.cur = b
+        if ex.violations:
+            return  # the first violation of an execution names the culprit
+        from .c02 import code_after_comment
+
+        bad = code_after_comment(after.toks, after.vals)
+        if bad:
+            ex.violation((who, "code_token_left_behind_a_comment_on_its_line"), {"comment": bad[0], "followed_by": bad[1]})
+            return
         va, vb = [v for v, r in a], [v for v, r in b]
         if va == vb:
             return
@@ -97,10 +105,12 @@ class Mon(drivers.Monitor):
         bytes written against that final model (a code token that ends up behind `--` or fused with a
         neighbour disappears from a fresh tokenisation of the written text)"""
         final = seq_of_snap(ex.snap)
+        if ex.violations:
+            return
         na, nb = normal.N(self.initial), normal.N(final)
         if na != nb:
             culprit = "+".join(sorted(set(r for r in ex.effective_rules if (self.spec.get(r) or {"group": "structure"})["group"] == "structure"))[:4]) or "?"
-            ex.violation(("whole_run", "final_model_differs_beyond_redundant_elements", culprit), first_diff(na, nb))
+            ex.violation(("whole_run", "final_model_differs_beyond_redundant_elements"), dict(first_diff(na, nb), structural_rules=culprit))
         if ex.final_lines is None:
             return
         try:
@@ -113,7 +123,7 @@ class Mon(drivers.Monitor):
             return  # nothing was written
         if b != vm:
             d = first_diff(vm, b)
-            ex.violation(("whole_run", "written_text_tokenises_differently_from_model", ex.effective_rules[-1] if ex.effective_rules else "?"), d)
+            ex.violation(("whole_run", "written_text_tokenises_differently_from_model"), d)
 
 
 def execute(item):
